@@ -144,6 +144,51 @@ func main() {
 			}
 		}
 	}
+	// 1b: the same families on the Go simulator with per-opcode delay assignments (VM.SimDelayMap)
+	delaySets := []map[string]int{{"cpy": 2}, {"cpy": 3, "i2rw": 1}, {"r2owa": 2}, {"i2rw": 3}, {"cpy": 1, "r2owa": 1, "i2rw": 2}, {"j": 2, "cpy": 4}, {"i2rw": 6}, {"i2rw": 10}, {"inc": 6, "cpy": 6}, {"inc": 9}}
+	for k := 1; k <= 3; k++ {
+		for di, ds := range delaySets {
+			for pp := 0; pp <= 2; pp++ {
+				for pc := 0; pc <= 2; pc++ {
+					if tier != "thorough" && (pp+pc+di)%2 == 1 {
+						continue
+					}
+					n := gen.FanOut(k, 8, pp, []int{pc, (pc + 1) % 3, (pc * 2) % 3}, false)
+					e := envFor(n, pp%3, 1+pc%3)
+					e.Delays = ds
+					cs = append(cs, caseT{Net: n, Env: e, Back: "sim", Tag: fmt.Sprintf("fanout%d-delays", k)})
+				}
+			}
+		}
+	}
+	for k := 1; k <= 4; k++ {
+		for _, ds := range delaySets {
+			n := gen.Chain(k, 16, []string{"inc r0"}, 1, 1)
+			e := envFor(n, 0, 1)
+			e.Delays = ds
+			cs = append(cs, caseT{Net: n, Env: e, Back: "sim", Tag: "chain-delays"})
+		}
+	}
+	// 1c: a free-running source (no input handshake slows it down) feeding k consumers that stall
+	// right after their i2rw
+	for k := 1; k <= 3; k++ {
+		for _, ds := range delaySets {
+			for pp := 0; pp <= 2; pp++ {
+				if tier != "thorough" && (pp+k)%2 == 1 {
+					continue
+				}
+				n := gen.NetSpec{Rsize: 8, Inputs: 0, Outputs: k, Family: fmt.Sprintf("source-fanout%d", k)}
+				n.Procs = append(n.Procs, gen.ProcSpec{R: 2, NIn: 0, NOut: 1, Body: []string{"inc r0"}, OutRegs: []int{0}, PadOut: pp})
+				for c := 1; c <= k; c++ {
+					n.Procs = append(n.Procs, gen.ProcSpec{R: 2, NIn: 1, NOut: 1, OutRegs: []int{0}, PadOut: 1 + (c+pp)%2})
+					n.Bonds = append(n.Bonds, [2]string{fmt.Sprintf("p%di0", c), "p0o0"}, [2]string{fmt.Sprintf("o%d", c-1), fmt.Sprintf("p%do0", c)})
+				}
+				e := envFor(n, 0, 1)
+				e.Delays = ds
+				cs = append(cs, caseT{Net: n, Env: e, Back: "sim", Tag: fmt.Sprintf("source-fanout%d-delays", k)})
+			}
+		}
+	}
 	// 2: back-to-back i2rw on the same input (consumer re-arms while valid may still be high)
 	for pp := 0; pp <= maxPad; pp++ {
 		n := gen.FanOut(1, 8, pp, []int{0}, true)
@@ -202,7 +247,7 @@ func main() {
 			return
 		}
 		if ev >= 8 {
-			run.Nontrivial(c.Back + "|" + c.Net.String() + fmt.Sprint(c.Env.Gap, c.Env.AckDelay))
+			run.Nontrivial(c.Back + "|" + c.Net.String() + fmt.Sprint(c.Env.Gap, c.Env.AckDelay, c.Env.Delays))
 		}
 		if i < 2 {
 			run.Sample(map[string]any{"backend": c.Back, "machine": c.Net.String(), "events": ev})
